@@ -8,6 +8,7 @@ import decimal
 import enum
 import importlib
 import io
+import os
 import sys
 import typing
 import uuid
@@ -39,6 +40,7 @@ class World:
         self.extra_axioms = []
         self.inline = set()          # (file, qualname) helper functions inlined instead of contracted
         self.bound = None            # N: bounded-refutation mode (finite expansion of index quantifiers)
+        self.unroll = None           # N: loops without an invariant are unrolled exactly for <= N items
         self._seed_classes()
         self.builtins = self._builtins()
         self.ext_table = self._externals()
@@ -119,7 +121,6 @@ class World:
                         info["sub_args"][a.get_id()] = a
                 elif nm == "ty":
                     info["ty_args"][e.arg(0).get_id()] = e.arg(0)
-                    info["sub_args"][e.get_id()] = e
                 elif nm in ("box_int", "box_bool", "box_float", "box_str"):
                     info["box"][e.get_id()] = e
             stack.extend(e.children())
@@ -172,11 +173,12 @@ class World:
                     for b in solid[i + 1:]:
                         if not issubclass(a.py, b.py) and not issubclass(b.py, a.py):
                             ax.append(z3.Not(z3.And(sub(x, a.t), sub(x, b.t))))
+            free_ids = set(f.get_id() for f in free)
             for x in terms:
                 for y in terms:
                     if x.get_id() == y.get_id():
                         continue
-                    if x.get_id() not in [f.get_id() for f in free] and y.get_id() not in [f.get_id() for f in free]:
+                    if x.get_id() not in free_ids and y.get_id() not in free_ids:
                         continue
                     ax.append(z3.Implies(z3.And(sub(x, y), sub(y, x)), x == y))
                     for z in terms:
@@ -414,6 +416,10 @@ class World:
             self.ext.havoc_path(ex, fr, path)
         # result
         res = self.contract_result(ex, con, fr)
+        if con.result_fields and isinstance(res, VRec):
+            for fname, expr in con.result_fields.items():
+                fv = ex.spec_eval(expr, fr, {})
+                res.fields[fname] = VBool(fv) if z3.is_expr(fv) else fv
         outcomes = [("return", None)]
         for en in (con.only_raises or []):
             outcomes.append(("raise", en))
@@ -430,6 +436,12 @@ class World:
                     if issubclass(ecls.py, self.exc_class(en2).py):
                         cs += [ex.spec_bool(cl, fr, {}) for cl in clauses.values()]
             conds.append(z3.And(*cs) if cs else z3.BoolVal(True))
+        if os.environ.get("PYVC_DEBUG_CALL"):
+            for (kind_, en_), c_ in zip(outcomes, conds):
+                print("   callee %s outcome %s %s feasible=%s" % (con.qualname, kind_, en_, ex.feasible(c_)))
+                if kind_ == "return" and not ex.feasible(c_):
+                    for lbl, cl in returns.items():
+                        print("      clause %s: %s" % (lbl, ex.feasible(ex.spec_bool(cl, fr, {}))))
         k = ex.choose(conds)
         kind, en = outcomes[k]
         if kind == "return":
@@ -445,6 +457,8 @@ class World:
             return VObj(ex.fresh("res_" + con.qualname.split(".")[-1], V))
         if isinstance(r, C.Desc):
             return r.fresh(ex, "res_%s!%d" % (con.qualname.split(".")[-1], next(ex.counter)))
+        if isinstance(r, str) and r.startswith("is:"):
+            return fr.env[r[3:]]
         if isinstance(r, str) and r.startswith("like:"):
             src = fr.env[r[5:]]
             v = self.ext.havoc_like(ex, src, "res_%s" % con.qualname.split(".")[-1])
@@ -631,6 +645,9 @@ class World:
         pc = v.pyclass()
         if isinstance(v, (VSeq, VDec)) and v.cls is not None:
             return sym.sub(v.cls.t, c.t)
+        if pc is not None and c.model is not None and not isinstance(v, (VRec, VObj, VCls)):
+            # a value of a builtin class is never an instance of a repo class under a record model
+            return z3.BoolVal(False)
         if pc is not None and c.py is not None:
             try:
                 return z3.BoolVal(isinstance_static(pc, c.py))
@@ -1133,6 +1150,42 @@ class World:
         if isinstance(d, VMap):
             if name in ("items", "keys", "values"):
                 return VFunc("dict." + name, lambda ex_, a, k: VIter(name, [d]))
+            if name in ("get", "pop"):
+                def getpop(ex_, a, k, name=name):
+                    key = a[0]
+                    kb = ex_.box(key)
+                    if not isinstance(key, (VStr, VInt, VBool, VNone, VFloat, VCls)):
+                        hashable = z3.Function("hashable", V, B)
+                        if not ex_.branch(hashable(kb)):
+                            ex_.throw("TypeError", node, origin="unhashable-key")
+                    j = ex_.fresh("j_" + name, I)
+                    same = lambda idx: w.key_same(ex_, z3.Select(d.keys, idx), key, kb)
+                    exists = z3.And(j >= 0, j < d.n, same(j))
+                    none = ex_.forall(0, d.n, lambda i: z3.Not(same(i)))
+                    which = ex_.choose([exists, none])
+                    if which == 1:
+                        if len(a) > 1:
+                            return a[1]
+                        if name == "get":
+                            return VNone()
+                        ex_.throw("KeyError", node, origin="dict.pop")
+                    val = VObj(z3.Select(d.vals, j))
+                    if name == "pop":
+                        w.ext.mutated(ex_, d, "pop")
+                        nk, nv = ex_.fresh("keys_pop", sym.ARR), ex_.fresh("vals_pop", sym.ARR)
+                        ok, ov = d.keys, d.vals
+                        ex_.assume(ex_.forall(0, d.n - 1, lambda i: z3.And(
+                            z3.Select(nk, i) == z3.If(i < j, z3.Select(ok, i), z3.Select(ok, i + 1)),
+                            z3.Select(nv, i) == z3.If(i < j, z3.Select(ov, i), z3.Select(ov, i + 1)))))
+                        d.keys, d.vals, d.n = nk, nv, z3.simplify(d.n - 1)
+                    return val
+                return VFunc("dict." + name, getpop)
+            if name == "clear":
+                def clear(ex_, a, k):
+                    w.ext.mutated(ex_, d, "clear")
+                    d.n = z3.IntVal(0)
+                    return VNone()
+                return VFunc("dict.clear", clear)
         raise Unsupported("dict.%s on %r" % (name, d))
 
     # dict with symbolic content: ordered pairs, later assignment to an equal key overrides in place
@@ -1383,6 +1436,9 @@ class World:
         f = self.spec_funcs.get(name)
         if f is not None:
             return VFunc(name, lambda ex_, a, k, f=f: f(ex_, frame, *a, **k))
+        o = getattr(self.utype_exc, name, None) or getattr(builtins, name, None)
+        if isinstance(o, type) and issubclass(o, BaseException):
+            return self.classes.of_py(o)
         return None
 
     # ------------------------------------------------------------ externals table
@@ -1405,6 +1461,7 @@ class World:
         t["re"] = VOpaque("module:re")
         t["inspect"] = VOpaque("module:inspect")
         t["typing"] = VOpaque("module:typing")
+        t["utype.utils.datastructures.unprovided"] = VOpaque("unprovided")
 
         def re_fn(kind):
             def call(ex, args, kwargs):
